@@ -33,6 +33,35 @@ var c16NotEquivalent = map[string]string{
 	"QF1009": "== on time.Time and Time.Equal differ by design",
 }
 
+// the import list of the files holding fixed functions: the property lets
+// the import list be adjusted, so every package a fix may refer to is
+// imported (and kept used)
+const c16Imports = `import (
+	"bytes"
+	"errors"
+	"fmt"
+	"io"
+	"math"
+	"slices"
+	"sort"
+	"strings"
+	"time"
+)
+
+var (
+	_ = bytes.Equal
+	_ = errors.New
+	_ = fmt.Sprint
+	_ io.Writer
+	_ = math.Pow
+	_ = slices.Contains[[]int]
+	_ = sort.Ints
+	_ = strings.Contains
+	_ time.Duration
+)
+
+`
+
 type c16Fix struct {
 	Check, Func, Name, Text string
 }
@@ -70,7 +99,7 @@ func c16Prepare(c *Ctx) (files map[string]string, entries []Entry, err error) {
 	applicability := func(format string, args ...any) {
 		msg := fmt.Sprintf(format, args...)
 		key := "applicability:" + msg
-		dirp := fmt.Sprintf("%s/replays/C16/%x", VerifDir, hashStr(key))
+		dirp := fmt.Sprintf("%s/replays/C16/%x", OutDir, hashStr(key))
 		os.MkdirAll(dirp, 0o755)
 		os.WriteFile(dirp+"/violation.json", []byte(fmt.Sprintf("{\"kind\": \"fix does not apply cleanly\", \"detail\": %q}\n", msg)), 0o644)
 		os.WriteFile(dirp+"/native_output.txt", []byte(msg+"\n"), 0o644)
@@ -187,7 +216,7 @@ func c16Prepare(c *Ctx) (files map[string]string, entries []Entry, err error) {
 	}
 	// type-check precondition and harness generation
 	var fsb, hsb strings.Builder
-	fsb.WriteString("package fixc\n\n")
+	fsb.WriteString("package fixc\n\n" + c16Imports)
 	hsb.WriteString("package fixc\n\n")
 	byFunc := map[string][]c16Fix{}
 	var order []string
@@ -207,7 +236,7 @@ func c16Prepare(c *Ctx) (files map[string]string, entries []Entry, err error) {
 		var variants []string
 		for _, f := range byFunc[fn] {
 			// type-check the fixed function in the package
-			ov := map[string][]byte{dir + "/fixc/zz_probe.go": []byte("package fixc\n\n" + f.Text)}
+			ov := map[string][]byte{dir + "/fixc/zz_probe.go": []byte("package fixc\n\n" + c16Imports + f.Text)}
 			pcfg := &packages.Config{Mode: packages.NeedTypes | packages.NeedSyntax | packages.NeedTypesInfo | packages.NeedName | packages.NeedFiles | packages.NeedImports | packages.NeedDeps, Dir: dir, Overlay: ov, Env: os.Environ()}
 			pp, perr := packages.Load(pcfg, "./fixc")
 			if perr != nil || len(pp) == 0 || len(pp[0].Errors) > 0 {
